@@ -81,22 +81,22 @@ var stdWriters = map[string]int{
 	"(encoding/binary.littleEndian).PutUint16": 1,
 	"(encoding/binary.littleEndian).PutUint32": 1,
 	"(encoding/binary.littleEndian).PutUint64": 1,
-	"io.ReadFull":                              1,
-	"io.ReadAtLeast":                           1,
-	"sort.Slice":                               0,
-	"sort.SliceStable":                         0,
-	"sort.Sort":                                0,
-	"sort.Stable":                              0,
-	"sort.Strings":                             0,
-	"sort.Ints":                                0,
-	"encoding/hex.Encode":                      0,
-	"encoding/hex.Decode":                      0,
-	"crypto/rand.Read":                         0,
-	"math/rand.Read":                           0,
-	"encoding/binary.Read":                     2,
-	"(*bytes.Reader).Read":                     1,
-	"(*bufio.Reader).Read":                     1,
-	"(*bytes.Buffer).Read":                     1,
+	"io.ReadFull":          1,
+	"io.ReadAtLeast":       1,
+	"sort.Slice":           0,
+	"sort.SliceStable":     0,
+	"sort.Sort":            0,
+	"sort.Stable":          0,
+	"sort.Strings":         0,
+	"sort.Ints":            0,
+	"encoding/hex.Encode":  0,
+	"encoding/hex.Decode":  0,
+	"crypto/rand.Read":     0,
+	"math/rand.Read":       0,
+	"encoding/binary.Read": 2,
+	"(*bytes.Reader).Read": 1,
+	"(*bufio.Reader).Read": 1,
+	"(*bytes.Buffer).Read": 1,
 }
 
 // receiver-writing stdlib methods (pointer receivers) by prefix
